@@ -79,13 +79,29 @@ def random_case(rnd: random.Random, max_rw=8, max_lines=8, max_groups=3, bad_p=0
             text = BAD
         tr = rnd.choice([None, None, 0, 1, 2])
         groups[rnd.randrange(ngroups)].append((i, j, text, tr))
+    # some rewrites are handed to the scheduler as AST-node targets (converted by core.get_charnos inside
+    # fill_transaction): a node target covers the expression on line i without its line break
+    node_targets = []
+    src0, pos0, _ = make_source(nlines, ignored)
+    for gi, g in enumerate(groups):
+        for k, (i, j, text, tr) in enumerate(g):
+            if j == i + 1 and text and not text.startswith("(") and rnd.random() < 0.25:
+                node_targets.append((gi, k, i))
     # occasionally duplicate a whole transaction in a later group / same group
     if rnd.random() < 0.3:
         g = rnd.choice(groups)
         if g:
             it = rnd.choice(g)
             rnd.choice(groups).append(it)
-    return build_case(nlines, ignored, groups)
+    c = build_case(nlines, ignored, groups)
+    # rewrite the chosen entries: range = the expression statement `v<i>` itself; text without the line break
+    for (gi, k, i) in node_targets:
+        if k < len(c["groups"][gi]):
+            s0, e0, text, tr = c["groups"][gi][k]
+            if (s0, e0) == (pos0[i], pos0[i + 1]):
+                c["groups"][gi][k] = (pos0[i], pos0[i] + len(f"v{i}"), text.rstrip("\n").split("\n")[0] or "m9", tr)
+                c.setdefault("node_targets", []).append([gi, k, i])
+    return c
 
 
 # ------------------------------------------------------------------------------------------------
@@ -96,13 +112,18 @@ def run_impl(mods, case):
     core, processing = mods["core"], mods["processing"]
     source = case["source"]
     funcs = []
+    nt = {(a, b): i for (a, b, i) in case.get("node_targets", [])}
+    tree = ast.parse(source) if nt else None
     for gi, g in enumerate(case["groups"]):
-        def rule(src, _g=g):
-            for (s, e, text, tr) in _g:
+        def rule(src, _g=g, _gi=gi):
+            for k, (s, e, text, tr) in enumerate(_g):
+                target = core.Range(s, e)
+                if (_gi, k) in nt:
+                    target = tree.body[nt[(_gi, k)]].value      # the Name node `v<i>`
                 if tr is None:
-                    yield (core.Range(s, e), text)
+                    yield (target, text)
                 else:
-                    yield (core.Range(s, e), text, tr)
+                    yield (target, text, tr)
         rule.__name__ = f"rule{gi}"
         funcs.append((rule, [source], {}))
     with common.quiet():
